@@ -2,9 +2,13 @@
 C05 — DAC waveforms are slot-exact and SAMPLER inverts them; argument validation.
 Property theorems only (helper lemmas live in Lemmas/Dac.lean).  The model (`Dac.dac`, `Dac.sampler`, `Dac.validate`)
 is built on `Gen/DacLimits.lean`, which the translator regenerates from `/repo/opticomlib/devices.py` on every run.
-The Gaussian pulse clauses (peak position, peak height, FWHM) are numerical and NOT theorems (oracle only).
+The Gaussian branch is modelled generically (`Model/DacGauss.lean`, constants and the formula of `k` from `Gen/DacGauss.lean`);
+the theorems below are about the continuous prototype pulse, the impulse train and the (linear) convolution.  What stays
+oracle-only is the DISCRETISATION: the pulse sampled on `linspace(-4·sps, 4·sps, 8·sps)`, the average of two impulses one sample
+apart, and the truncation at ±4·sps (sampled peak position, 5 % height, ±1-sample width).
 -/
 import OptiVerif.Lemmas.Dac
+import OptiVerif.Lemmas.DacGauss
 
 namespace OptiVerif.Props.C05
 open OptiVerif OptiVerif.Dac OptiVerif.Gen.DacLimits
@@ -315,6 +319,135 @@ theorem roundtrip_succeeds {bits sh sps V B k}
   refine ⟨(bits.map (fun (b : ℕ) => lvl (some V) (some B) (b : ℚ))).map (decideBit V B), ?_⟩
   unfold roundtrip
   simp only [hd, bind, Except.bind, hsam, pure, Except.pure]
+
+
+/-! ### Gaussian branch: prototype pulse, impulse train, convolution (over ℝ / ℂ) -/
+
+section Gauss
+open OptiVerif.DacGauss OptiVerif.Gen.DacGauss
+
+/-- the literals found in the Gaussian branch of the source, and the translated formula of `k` -/
+theorem gauss_constants_documented :
+    pulseDen = 2 ∧ pulseExpFactor = 2 ∧ spanLo = 4 ∧ spanHi = 4 ∧ pointsPerSps = 8 ∧ convDiv = 2 ∧
+    (∀ sps, strideA sps = sps / 2 ∧ strideB sps = sps / 2 - 1) ∧
+    (∀ m : ℕ, (kFormula m : ℝ) = 2 * Real.exp (1 / (2 * (m : ℝ)) * Real.log (2 * Real.log 2))) :=
+  ⟨rfl, rfl, rfl, rfl, rfl, rfl, fun _ => ⟨rfl, rfl⟩, kFormula_real⟩
+
+/-- the modulus of the prototype `p(t, Tw) = exp(−(1+jc)/2·(t/Tw)^(2m))` is the super-Gaussian `exp(−½·(t/Tw)^(2m))` -/
+theorem gauss_modulus (c : ℝ) (m : ℕ) (t Tw : ℝ) :
+    cabs (pulseAt c m t Tw) = Real.exp (-(1 / 2) * (t / Tw) ^ (2 * m)) := cabs_pulseAt c m t Tw
+
+/-- **peak**: `|p(0)| = 1` for every order `m ≥ 1`, every width and chirp -/
+theorem gauss_peak (c : ℝ) (m : ℕ) (hm : 1 ≤ m) (Tw : ℝ) : cabs (pulseAt c m 0 Tw) = 1 := by
+  rw [cabs_pulseAt, zero_div, zero_pow (by omega), mul_zero, Real.exp_zero]
+
+/-- **half maximum at ±T/2**: with the code's `k`, `|p(±T/2, T/k)| = 1/2` for every `m ≥ 1` and `T > 0` —
+    the amplitude FWHM of the prototype is exactly `T` -/
+theorem gauss_half_at_half_T (c : ℝ) (m : ℕ) (hm : 1 ≤ m) (T : ℝ) (hT : 0 < T) :
+    cabs (pulseAt c m (T / 2) (T / kFormula m)) = 1 / 2 ∧ cabs (pulseAt c m (-(T / 2)) (T / kFormula m)) = 1 / 2 := by
+  have h := cabs_pulseAt_half c m hm T hT.ne'
+  exact ⟨h, by rw [pulseAt_neg]; exact h⟩
+
+/-- **even**: `p(−t) = p(t)` (the complex sample, not only its modulus) -/
+theorem gauss_even (c : ℝ) (m : ℕ) (t Tw : ℝ) : pulseAt c m (-t) Tw = pulseAt c m t Tw := pulseAt_neg c m t Tw
+
+/-- **strictly decreasing in |t|** (`m ≥ 1`, positive width) -/
+theorem gauss_strict_anti (c : ℝ) (m : ℕ) (hm : 1 ≤ m) (Tw : ℝ) (hT : 0 < Tw) (t₁ t₂ : ℝ) (h : |t₁| < |t₂|) :
+    cabs (pulseAt c m t₂ Tw) < cabs (pulseAt c m t₁ Tw) := by
+  rw [cabs_pulseAt_abs c m t₁, cabs_pulseAt_abs c m t₂]
+  exact cabs_pulseAt_strictAnti c m hm Tw hT (abs_nonneg t₁) (abs_nonneg t₂) h
+
+/-- hence the pulse is above half maximum exactly on `|t| < T/2` -/
+theorem gauss_above_half_iff (c : ℝ) (m : ℕ) (hm : 1 ≤ m) (T : ℝ) (hT : 0 < T) (t : ℝ) :
+    1 / 2 < cabs (pulseAt c m t (T / kFormula m)) ↔ |t| < T / 2 := by
+  have hTw : 0 < T / (kFormula m : ℝ) := div_pos hT (kFormula_pos m)
+  have hhalf := (gauss_half_at_half_T c m hm T hT).1
+  have hanti := cabs_pulseAt_strictAnti c m hm _ hTw
+  have h2 : (T / 2) ∈ Set.Ici (0 : ℝ) := by simp only [Set.mem_Ici]; linarith
+  have ht : |t| ∈ Set.Ici (0 : ℝ) := abs_nonneg t
+  rw [cabs_pulseAt_abs c m t, ← hhalf]
+  constructor
+  · intro h
+    by_contra hc
+    rcases (not_lt.mp hc).lt_or_eq with hlt | heq
+    · exact absurd (hanti h2 ht hlt) (not_lt.mpr h.le)
+    · rw [heq] at h; exact lt_irrefl _ h
+  · intro h
+    exact hanti ht h2 h
+
+/-- **the chirp does not change the modulus** -/
+theorem gauss_chirp_modulus (c : ℝ) (m : ℕ) (t Tw : ℝ) : cabs (pulseAt c m t Tw) = cabs (pulseAt 0 m t Tw) := by
+  rw [cabs_pulseAt, cabs_pulseAt]
+
+/-- **impulse train**: `s` has `len·sps` samples; in slot `q` the two positions `sps//2` and `sps//2 − 1` carry `data[q]`,
+    every other position is 0 — for every list and every `sps ≥ 2` -/
+theorem impulse_train_spec (data : List ℝ) (sps : ℕ) (hs : 2 ≤ sps) :
+    (train data sps).length = data.length * sps ∧
+    ∀ q r, q < data.length → r < sps →
+      (train data sps)[q * sps + r]? = if r = sps / 2 ∨ r = sps / 2 - 1 then data[q]? else some 0 := by
+  refine ⟨length_train data sps, ?_⟩
+  intro q r hq hr
+  have hj : q * sps + r < data.length * sps := by
+    have : (q + 1) * sps ≤ data.length * sps := Nat.mul_le_mul_right _ hq
+    have e : (q + 1) * sps = q * sps + sps := by ring
+    omega
+  have hmod : (q * sps + r) % sps = r := by
+    rw [Nat.add_comm, Nat.add_mul_mod_self_right, Nat.mod_eq_of_lt hr]
+  have hdiv : (q * sps + r) / sps = q := by
+    rw [Nat.add_comm, Nat.add_mul_div_right _ _ (by omega : 0 < sps), Nat.div_eq_of_lt hr, Nat.zero_add]
+  rw [getElem?_train data sps hs _ hj, hmod, hdiv]
+  rfl
+
+/-- **length**: the Gaussian waveform has `len·sps` samples ("same" keeps the length of the impulse train) -/
+theorem gauss_len (data : List ℝ) (sps : ℕ) (c : ℝ) (m T : ℕ) (vout bias : Option ℝ) :
+    (DacGauss.scale (core data sps c m T) vout bias).length = data.length * sps := by
+  unfold DacGauss.scale
+  cases vout <;> cases bias <;> simp [length_core]
+
+/-- **the convolution is the direct sum** `x[i]·2 = Σ_k s[k]·pulse[start + i − k]` with zero padding and scipy's "same" start
+    `(len(pulse) − 1)//2` -/
+theorem conv_direct_sum (s : List ℝ) (h : List (Cx ℝ)) (i : ℕ) (hi : i < s.length) :
+    ∃ z, (convSame s h)[i]? = some z ∧
+      z.toC = ∑ k ∈ Finset.range s.length, (optR s[k]? : ℂ) * Hc h ((((h.length - 1) / 2 + i : ℕ) : ℤ) - (k : ℤ)) :=
+  convSame_spec s h i hi
+
+/-- **linearity / superposition**: for every slot data, `sps ≥ 2`, `c`, `m`, `T`, sample `i` of the Gaussian waveform is
+    `Σ_q data[q]·W(i − q·sps)`, where `W` is the waveform of ONE isolated bit as a function of the offset from its slot start.
+    So the waveform of a bit list is the sum of the shifted single-bit waveforms. -/
+theorem conv_linear (data : List ℝ) (sps : ℕ) (hs : 2 ≤ sps) (c : ℝ) (m T : ℕ) (i : ℕ) (hi : i < data.length * sps) :
+    ∃ z, (core data sps c m T)[i]? = some z ∧
+      z.toC = ∑ q ∈ Finset.range data.length,
+        (optR data[q]? : ℂ) * W (pulse c m T sps) sps ((i : ℤ) - ((q * sps : ℕ) : ℤ)) :=
+  core_superposition data sps hs c m T i hi
+
+/-- an isolated 1 in slot `q₀` gives exactly the shifted single-bit waveform (this is what makes "isolated 1" representative) -/
+theorem isolated_one (data : List ℝ) (sps : ℕ) (hs : 2 ≤ sps) (c : ℝ) (m T : ℕ) (q₀ : ℕ) (hq : q₀ < data.length)
+    (h1 : data[q₀]? = some 1) (h0 : ∀ q, q ≠ q₀ → q < data.length → data[q]? = some 0)
+    (i : ℕ) (hi : i < data.length * sps) :
+    ∃ z, (core data sps c m T)[i]? = some z ∧ z.toC = W (pulse c m T sps) sps ((i : ℤ) - ((q₀ * sps : ℕ) : ℤ)) := by
+  obtain ⟨z, hz, hsum⟩ := conv_linear data sps hs c m T i hi
+  refine ⟨z, hz, ?_⟩
+  rw [hsum, Finset.sum_eq_single q₀]
+  · simp [h1, optR]
+  · intro q hq' hne
+    rw [h0 q hne (Finset.mem_range.mp hq')]
+    simp [optR]
+  · intro h; exact absurd (Finset.mem_range.mpr hq) h
+
+/-! non-vacuity of the hypotheses above -/
+example : cabs (pulseAt (3 / 2 : ℝ) 2 (5 / 2) (5 / kFormula 2)) = 1 / 2 :=
+  (gauss_half_at_half_T (3 / 2) 2 (by norm_num) 5 (by norm_num)).1
+example : cabs (pulseAt (0 : ℝ) 4 1 (8 / kFormula 4)) > 1 / 2 :=
+  (gauss_above_half_iff 0 4 (by norm_num) 8 (by norm_num) 1).mpr (by norm_num)
+example : (train ([0, 1, 1] : List ℝ) 4)[1 * 4 + 1]? = some (1 : ℝ) := by
+  rw [(impulse_train_spec ([0, 1, 1] : List ℝ) 4 (by norm_num)).2 1 1 (by simp) (by norm_num)]; simp
+example : ∃ z, (core ([0, 1, 0] : List ℝ) 4 (0 : ℝ) 1 4)[5]? = some z ∧
+    z.toC = W (pulse (0 : ℝ) 1 4 4) 4 ((5 : ℤ) - ((1 * 4 : ℕ) : ℤ)) :=
+  isolated_one ([0, 1, 0] : List ℝ) 4 (by norm_num) 0 1 4 1 (by simp) (by simp)
+    (by intro q hne hq; have : q = 0 ∨ q = 2 := by simp at hq; omega
+        rcases this with rfl | rfl <;> simp) 5 (by simp)
+
+end Gauss
 
 /-! ### validation: exact accept / TypeError / ValueError table -/
 
